@@ -120,10 +120,11 @@ def run(ctx):
     nrun = 40 if ctx.thorough else 10
     for k in range(nrun):
         blk = bytes(rng.choice([0, 255, 16, 10, rng.randrange(256)]) for _ in range(1024)) if k else bytes(range(256)) * 4
-        en = (rng.randrange(0, 300), rng.randrange(0, 100), rng.randrange(0, 100))
-        co = (rng.randrange(0, 300), rng.randrange(0, 100), rng.randrange(0, 10))
-        ver = (rng.randrange(0, 1000), rng.randrange(0, 20), rng.randrange(0, 10))
-        cfg, log = rng.randrange(0, 100), rng.randrange(0, 100)
+        # the firmware version travels as >HBBHBB: 16-bit build numbers, 8-bit major / minor
+        en = (rng.choice([rng.randrange(0, 300), rng.randrange(1000, 65536), 999, 1000, 65535]), rng.choice([rng.randrange(0, 100), 255]), rng.choice([rng.randrange(0, 100), 255]))
+        co = (rng.choice([rng.randrange(0, 300), rng.randrange(1000, 65536), 4096]), rng.randrange(0, 256), rng.randrange(0, 256))
+        ver = (rng.choice([rng.randrange(0, 1000), rng.randrange(1000, 65536)]), rng.randrange(0, 256), rng.randrange(0, 256))
+        cfg, log = rng.choice([rng.randrange(0, 100), rng.randrange(100, 256)]), rng.choice([rng.randrange(0, 100), rng.randrange(100, 256)])
         pack = rng.choice(packs)
         name = rng.choice(names)
         lines = write_snapshot(name, blk, pack, ver, en, co, cfg, log)
